@@ -161,6 +161,7 @@ type throttler struct {
 	waiting  bool
 	trailing bool
 	stop     bool
+	pending  bool
 }
 
 // NewThrottle creates a throttled function in order to limit the frequency rate at which the passed in function is invoked.
@@ -186,14 +187,23 @@ func (t *throttler) Call() {
 	t.cond.L.Lock()
 	defer t.cond.L.Unlock()
 
-	if !t.waiting && !t.stop {
+	if !t.waiting && !t.pending && !t.stop {
 		delta := time.Since(t.last)
 		if delta > t.duration {
 			t.waiting = true
 			t.cond.Broadcast()
 		} else if t.trailing {
-			t.waiting = true
-			time.AfterFunc(t.duration-delta, t.cond.Broadcast)
+			// The trailing trigger becomes visible to Next only once the period has elapsed.
+			t.pending = true
+			time.AfterFunc(t.duration-delta, func() {
+				t.cond.L.Lock()
+				t.pending = false
+				if !t.stop {
+					t.waiting = true
+				}
+				t.cond.L.Unlock()
+				t.cond.Broadcast()
+			})
 		}
 	}
 }
